@@ -200,7 +200,8 @@ fn build_nests(case: &Case, models: &[CClass]) -> Vec<RNest> {
 		};
 		let simple = class.rsplit('/').next().unwrap_or(&class).to_string();
 		let inner = match p.kind {
-			0 => if p.name_variant == 0 { simple.clone() } else { format!("Custom{}", out.len()) },
+			// variant 2: the part behind the last `$` of a class that is already called Encl$Inner
+			0 => if p.name_variant == 0 { simple.clone() } else if p.name_variant == 2 && class.contains('$') { class.rsplit('$').next().unwrap_or(&simple).to_string() } else { format!("Custom{}", out.len()) },
 			1 => if p.name_variant == 0 { format!("1{simple}") } else { format!("2Custom{}", out.len()) },
 			_ => match p.name_variant {
 				0 => {
